@@ -519,7 +519,8 @@ func (t *Tree) Validate() error {
 		// _SYMLINK reports in fsck_tree.
 		if e.Mode == filemode.Symlink {
 			switch {
-			case pathutil.IsHFSDotGitmodules(e.Name) || pathutil.IsNTFSDotGitmodules(e.Name):
+			case pathutil.IsHFSDotGitmodules(e.Name) || pathutil.IsNTFSDotGitmodules(e.Name) ||
+				hasNTFSDotGitmodulesAfterBackslash(e.Name):
 				add(errors.New(".gitmodules is a symlink"))
 			case pathutil.IsHFSDotGitattributes(e.Name) || pathutil.IsNTFSDotGitattributes(e.Name):
 				add(errors.New(".gitattributes is a symlink"))
@@ -538,6 +539,24 @@ func (t *Tree) Validate() error {
 	}
 
 	return errors.Join(errs...)
+}
+
+// hasNTFSDotGitmodulesAfterBackslash mirrors the backslash loop in
+// upstream's fsck_tree: NTFS treats '\\' as a directory separator, so
+// the remainder after every backslash is checked as well.
+func hasNTFSDotGitmodulesAfterBackslash(name string) bool {
+	for i := strings.IndexByte(name, '\\'); i >= 0; {
+		rest := name[i+1:]
+		if pathutil.IsNTFSDotGitmodules(rest) {
+			return true
+		}
+		j := strings.IndexByte(rest, '\\')
+		if j < 0 {
+			break
+		}
+		i += 1 + j
+	}
+	return false
 }
 
 // isValidTreeMode reports whether mode is one of the canonical tree
